@@ -5,7 +5,8 @@ from pyvc.harness import task
 from pyvc import setmode as SM
 from pyvc import values as V
 from .algos import (ALGOS, CHK, COV, DOM, AlgoState, install_predicate_contracts, same_set, set_is,
-                    slack_num, transition, Specs)
+                    slack_num, transition, unrolled_transition, Specs)
+from pyvc.values import Unsupported
 
 q = z3.Int("q!w")
 
@@ -30,15 +31,24 @@ def _paveba_family(name):
         t.mode = "set-level: S, P, U arbitrary finite sets, regions and predicate answers arbitrary"
         install_predicate_contracts(t)
         A = AlgoState(t, name)
-        paths = t.run(ALGOS[name], name + ".discarding", [], self_val=A.obj, setmode=True)
+        cert = Specs(A).cert_paveba(A.S0, A.U0, A.REG0)
+        bounded = lambda: unrolled_transition(t, A, ALGOS[name], name + ".discarding", "exactly_certified_designs_leave(zero slack, witness in S u U)",
+                                              S=lambda e: z3.And(z3.Select(A.S0, e), z3.Not(cert(e))))
+        try:
+            paths = t.run(ALGOS[name], name + ".discarding", [], self_val=A.obj, setmode=True)
+        except Unsupported as ex_:
+            # the body left the set-level subset: bounded structural check instead (labelled bounded), and the task stays undecided
+            bounded()
+            raise
         t.must_fail()
         t.cover("two-active-designs", [z3.Select(A.S0, 0), z3.Select(A.S0, 1), A.N >= 2])
         t.no_raise(paths)
-        cert = Specs(A).cert_paveba(A.S0, A.U0, A.REG0)
 
         transition(t, A, paths, "discarding", "exactly_certified_designs_leave(zero slack, witness in S u U)",
                    S=lambda e: z3.And(z3.Select(A.S0, e), z3.Not(cert(e))), consumers=_safe_discard(A, cert))
         t.implicit()
+        if t.tier == "thorough":
+            bounded()
     return _t
 
 
@@ -51,7 +61,13 @@ def _pess_set(name):
     def _t(t):
         install_predicate_contracts(t)
         A = AlgoState(t, name, with_U=False)
-        paths = t.run(ALGOS[name], name + ".compute_pessimistic_set", [], self_val=A.obj, setmode=True)
+        bounded = lambda: unrolled_transition(t, A, ALGOS[name], name + ".compute_pessimistic_set", "designs_no_other_active_design_pessimistically_dominates",
+                                              result=lambda e: ps_spec(A, e))
+        try:
+            paths = t.run(ALGOS[name], name + ".compute_pessimistic_set", [], self_val=A.obj, setmode=True)
+        except Unsupported:
+            bounded()
+            raise
         t.must_fail()
         t.no_raise(paths)
 
@@ -62,6 +78,8 @@ def _pess_set(name):
                                z3.ForAll([ee], z3.Implies(z3.Select(res, ee), z3.Or(z3.Select(A.S0, ee), z3.Select(A.P0, ee))))),
                               ("safe/S_and_P_untouched", lambda S1, P1, U1, res: z3.And(same_set(S1, A.S0), same_set(P1, A.P0)))])
         t.implicit()
+        if t.tier == "thorough":
+            bounded()
     return _t
 
 
@@ -86,10 +104,23 @@ def _vogp_family(name, slack_of):
                 st.pc.append(set_is(m, lambda e: ps_spec(A, e)))
             return [(st, SM.SSet(m, ex.ctx, "PS"))]
         t.contracts[ALGOS[name] + "::" + name + ".compute_pessimistic_set"] = c_ps
-        paths = t.run(ALGOS[name], name + ".discarding", [], self_val=A.obj, setmode=True)
+        sl = slack_of(A)
+
+        def bounded():
+            # (the real compute_pessimistic_set is inlined here: the specification's pessimistic set is substituted for PS)
+            PSspec = lambda q_: ps_spec(A, q_)
+            wit = z3.Int("wit!b")
+            certb = lambda p_: z3.And(z3.Not(PSspec(p_)), z3.Exists([wit], z3.And(PSspec(wit), DOM(A.order, z3.Select(A.REG0, p_), z3.Select(A.REG0, wit), sl))))
+            unrolled_transition(t, A, ALGOS[name], name + ".discarding", "exactly_non_pessimistic_designs_certified_by_a_pessimistic_witness_leave(eps slack)",
+                                S=lambda e: z3.And(z3.Select(A.S0, e), z3.Not(certb(e))),
+                                without_contracts=[ALGOS[name] + "::" + name + ".compute_pessimistic_set"])
+        try:
+            paths = t.run(ALGOS[name], name + ".discarding", [], self_val=A.obj, setmode=True)
+        except Unsupported:
+            bounded()
+            raise
         t.must_fail()
         t.no_raise(paths)
-        sl = slack_of(A)
         t.prove("pessimistic_set_computed_once", z3.BoolVal(len(PSs) == 1))
         if len(PSs) != 1:
             return
@@ -102,6 +133,8 @@ def _vogp_family(name, slack_of):
         transition(t, A, paths, "discarding", "exactly_non_pessimistic_designs_certified_by_a_pessimistic_witness_leave(eps slack)",
                    S=lambda e: z3.And(z3.Select(A.S0, e), z3.Not(cert(e))), consumers=_safe_discard(A, weak))
         t.implicit()
+        if t.tier == "thorough":
+            bounded()
     return _t
 
 
